@@ -91,18 +91,10 @@ func newSource(c *simkit.Choice, data []byte, r *simkit.Rec) *simkit.Source {
 }
 
 func countSource(s *simkit.Source, r *simkit.Rec) {
-	for i := 0; i < s.NShort; i++ {
-		r.Fault(idx(padFaults, "short-read"))
-	}
-	for i := 0; i < s.NOne; i++ {
-		r.Fault(idx(padFaults, "one-byte-read"))
-	}
-	for i := 0; i < s.NZero; i++ {
-		r.Fault(idx(padFaults, "zero-byte-read"))
-	}
-	for i := 0; i < s.NEOFData; i++ {
-		r.Fault(idx(padFaults, "eof-with-data"))
-	}
+	r.FaultN(idx(padFaults, "short-read"), s.NShort)
+	r.FaultN(idx(padFaults, "one-byte-read"), s.NOne)
+	r.FaultN(idx(padFaults, "zero-byte-read"), s.NZero)
+	r.FaultN(idx(padFaults, "eof-with-data"), s.NEOFData)
 	if s.NShort+s.NOne > 0 {
 		r.Reach(idx(padReach, "short-read-before-eof"))
 	}
